@@ -564,15 +564,15 @@ JOB_RULES = (('check_e1101_correct_job_types_demand', 'E1101'), ('check_e1102_mu
              ('check_e1105_empty_jobs', 'E1105'), ('check_e1106_negative_duration', 'E1106'), ('check_e1107_negative_demand', 'E1107'))
 
 
-def ob_job_rules(ctx, template, dims=1):
+def ob_job_rules(ctx, template, dims=1, n_places=1):
     """C10: the job rules of the validator (real MIR of check_e1101/02/05/06/07, `ValidationContext::{jobs,tasks}`,
     `MultiDimLoad::{new,sum,sub,ne}` from vrp-core) on one job of the given task layout with symbolic contents - demand
     present or absent per task, every amount and every duration of any sign: each rule returns an error exactly when the
     documented rule is broken, and the error carries the rule's own code."""
     shape = JOB_TEMPLATES[template]
-    name = f'job_rules[{template},dims={dims}]'
+    name = f'job_rules[{template},dims={dims}{",places=" + str(n_places) if n_places > 1 else ""}]'
     res = Result(name)
-    res.bounds = (f'one job; tasks per list {shape} (None = list absent); one place per task; demand per task: absent or {dims} amounts in [-2^14,2^14]; '
+    res.bounds = (f'one job; tasks per list {shape} (None = list absent); {n_places} alternative place(s) per task; demand per task: absent or {dims} amounts in [-2^14,2^14]; '
                   f'durations integer-valued in [-2^16,2^16]; rules E1101 E1102 E1105 E1106 E1107')
     t0 = time.time()
     fns = {}
@@ -612,12 +612,12 @@ def ob_job_rules(ctx, template, dims=1):
                 for i in range(n):
                     has = z3.Bool(f'{lst}{i}_has_demand')
                     amounts = [env.sym_i(f'{lst}{i}_amount{d}', -2 ** 14, 2 ** 14, 'i32') for d in range(dims)]
-                    dur = env.sym_f(f'{lst}{i}_duration', -2 ** 16, 2 ** 16)
-                    place = env.struct('problem::model::JobPlace', location=Opaque('location'), duration=dur, times=mk_option(False, ty='Option<Vec<Vec<String>>>'),
-                                       tag=mk_option(False, ty='Option<String>'))
-                    items.append(env.struct('problem::model::JobTask', places=VecV([place]), demand=mk_option(has, VecV(list(amounts)), ty='Option<Vec<i32>>'),
+                    durs = [env.sym_f(f'{lst}{i}_duration{pi if pi else ""}', -2 ** 16, 2 ** 16) for pi in range(n_places)]
+                    places = [env.struct('problem::model::JobPlace', location=Opaque('location'), duration=dur, times=mk_option(False, ty='Option<Vec<Vec<String>>>'),
+                                         tag=mk_option(False, ty='Option<String>')) for dur in durs]
+                    items.append(env.struct('problem::model::JobTask', places=VecV(places), demand=mk_option(has, VecV(list(amounts)), ty='Option<Vec<i32>>'),
                                             order=mk_option(False, ty='Option<i32>')))
-                    info.append((has, amounts, dur))
+                    info.append((has, amounts, durs))
                 fields[lst] = mk_option(True, VecV(items), ty='Option<Vec<JobTask>>')
                 tasks[lst] = info
             none = lambda ty: mk_option(False, ty=ty)
@@ -634,9 +634,34 @@ def ob_job_rules(ctx, template, dims=1):
         res.paths += len(paths)
         res.functions |= eng.functions_used
         saw_ok = saw_err = False
+
+        def job_case(m, tasks):
+            doc = {'id': 'job1'}
+            for lst, info in tasks.items():
+                if shape[lst] is None:
+                    continue
+                doc[lst] = []
+                for h, a, durs in info:
+                    t = {'places': [{'location': {'index': 0}, 'duration': float(_ev_int(m, dur.v))} for dur in durs]}
+                    if z3.is_true(m.eval(h, model_completion=True)):
+                        t['demand'] = [_ev_int(m, x.t) for x in a]
+                    doc[lst].append(t)
+            return {'kind': 'job_rules', 'job': doc, 'rule': code, 'dims': dims, 'problem': rules_problem(doc, dims),
+                    'matrix': {'profile': 'car', 'travelTimes': [0], 'distances': [0]}}
+
+        def panic_case(st):
+            # a reachable panic: concrete document from a model of the panic condition
+            for cond, msg in st.panics:
+                v, m, _ = ctx.decider.check(list(env.assumptions) + list(st.assumed) + [cond], cross=False)
+                if v == 'sat':
+                    return job_case(m, holder['tasks'])
+            return None
+
         for st, out in paths:
             if out is None:
                 if not no_panic(ctx, res, env, st, what=f'{name} {code}'):
+                    if res.status == 'violated':
+                        res.case = panic_case(st)
                     break
                 continue
             tasks = holder['tasks']
@@ -657,7 +682,7 @@ def ob_job_rules(ctx, template, dims=1):
             elif code == 'E1105':
                 broken = z3.BoolVal(len(every) == 0)
             elif code == 'E1106':
-                broken = z3.Or(*([dur.v < 0 for _, _, dur in every] + [z3.BoolVal(False)]))
+                broken = z3.Or(*([dur.v < 0 for _, _, durs in every for dur in durs] + [z3.BoolVal(False)]))
             else:
                 broken = z3.Or(*([z3.And(h, a[d].t < 0) for h, a, _ in every for d in range(dims)] + [z3.BoolVal(False)]))
             is_err = zs(out.discr == 1)
@@ -676,8 +701,8 @@ def ob_job_rules(ctx, template, dims=1):
                         if shape[lst] is None:
                             continue
                         doc[lst] = []
-                        for h, a, dur in info:
-                            t = {'places': [{'location': {'index': 0}, 'duration': float(_ev_int(m, dur.v))}]}
+                        for h, a, durs in info:
+                            t = {'places': [{'location': {'index': 0}, 'duration': float(_ev_int(m, dur.v))} for dur in durs]}
                             if z3.is_true(m.eval(h, model_completion=True)):
                                 t['demand'] = [_ev_int(m, x.t) for x in a]
                             doc[lst].append(t)
@@ -685,6 +710,8 @@ def ob_job_rules(ctx, template, dims=1):
                                 'matrix': {'profile': 'car', 'travelTimes': [0], 'distances': [0]}}
                 break
             if not no_panic(ctx, res, env, st, what=f'{name} {code}'):
+                if res.status == 'violated':
+                    res.case = panic_case(st)
                 break
             saw_ok = saw_ok or witness(ctx, res, env, st, z3.Not(is_err))
             saw_err = saw_err or witness(ctx, res, env, st, is_err)
